@@ -167,7 +167,7 @@ def ev_greedy(case, viol, seed):
         viol.append(('gta-stops-early fam=greedy', {'case': case, 'errors': errs}))
     if abs(nrm(T.asarray() - A) - errs[-1]) > 1e-10 * max(1.0, nA):
         viol.append(('gta-error-misreported fam=greedy', {'case': case, 'errors': errs, 'true': nrm(T.asarray() - A)}))
-    if any(np.abs(U.T @ U - np.eye(U.shape[1])).max() > 1e-10 for U in T.Us):
+    if any(np.abs(U.T @ U - np.eye(U.shape[1])).max() > 1e-10 for U in T.Us if U.shape[1] > 0):
         viol.append(('gta-basis-not-orthonormal fam=greedy', {'case': case}))
     return n
 
